@@ -236,7 +236,8 @@ def run_impl(case: dict) -> dict:
         signal.setitimer(signal.ITIMER_REAL, 0)
     out["seconds"] = round(time.time() - t0, 3)
     out["events"] = TR.events
-    out["sanitized"] = {n: NameSanitizer.sanitize_class_name(n) for n in case["schemas"]}
+    tops = {e["name"] for e in TR.events if e.get("k") == "enter" and e.get("parent") == 0 and e.get("name")}
+    out["sanitized"] = {n: NameSanitizer.sanitize_class_name(n) for n in list(case["schemas"]) + sorted(tops)}
     TR.reset()
     return out
 
